@@ -55,8 +55,8 @@ def nontrivial(world):
 
 
 def run_shard(ctx):
-    n = 45 if ctx.tier == 'quick' else 800
-    ctx.set_budget(80 if ctx.tier == 'quick' else 2400)
+    n = 45 if ctx.tier == 'quick' else 3200
+    ctx.set_budget(80 if ctx.tier == 'quick' else 1100)
     run_histories(ctx, PROP, strategy(ctx.tier), checkers, nontrivial, n)
 
 
